@@ -7,7 +7,7 @@ signalling a mismatch by an error, autopilot CAS refusing to create, the silent 
 
 Mirrors (agent/consul/state unless noted)
   kvs.go            kvsSetTxn, kvsDeleteTxn, kvsSetCASTxn/KVSSetCAS, kvsDeleteCASTxn/KVSDeleteCAS
-  catalog.go        ensureNodeTxn (no node ID), ensureServiceTxn, ensureCheckTxn (row level),
+  catalog.go        ensureNodeTxn (node IDs, rename-by-ID, ensureNoNodeWithSimilarNameTxn), ensureServiceTxn, ensureCheckTxn (row level),
                     deleteNodeTxn / deleteServiceTxn / deleteCheckTxn (row level, with cascades),
                     ensure{Node,Service,Check}CASTxn, delete{Node,Service,Check}CASTxn
   txn.go            txnKVS / txnNode / txnService / txnCheck (set, delete, cas, delete-cas verbs),
@@ -94,6 +94,11 @@ structure KVal where
   flags : Nat
 deriving DecidableEq, Repr
 
+structure NodeVal where
+  id   : String        -- node UUID, "" when the registration carries none
+  addr : String
+deriving DecidableEq, Repr
+
 structure ChkVal where
   svcId  : String
   output : String
@@ -127,7 +132,7 @@ deriving DecidableEq, Repr
 structure State where
   kvs       : Tab String KVal := []
   tombs     : List (String × Nat) := []
-  nodes     : Tab String String := []                 -- node name ↦ address
+  nodes     : Tab String NodeVal := []                -- node name ↦ (node ID, address)
   svcs      : Tab (String × String) Nat := []         -- (node, service id) ↦ port
   chks      : Tab (String × String) ChkVal := []      -- (node, check id)
   cfgs      : Tab (String × String) CfgVal := []      -- (kind, name)
@@ -145,6 +150,7 @@ inductive Err
   | stale              -- txn verb: "... index is stale"
   | missingNode        -- ErrMissingNode
   | missingService     -- ErrMissingService
+  | nodeNameConflict   -- "Node name %s is reserved by node %s …" (ensureNoNodeWithSimilarNameTxn)
   | rootsActive        -- "there must be exactly one active CA"
   | missingRootId      -- ErrMissingCARootID
   | fgNoStatus         -- "feature-gate update requires status"
@@ -220,13 +226,34 @@ def kvDeleteCas (s : State) (i : Nat) (k : String) (cidx : Nat) : Out :=
   | none => ⟨s, .ok true⟩
   | some e => if e.modify ≠ cidx then ⟨s, .ok false⟩ else ⟨kvDelete s i k, .ok true⟩
 
-/-! ## Catalog rows (nodes without ID, typical services, checks) -/
+/-! ## Catalog rows (nodes with or without a node ID, typical services, checks)
 
-/-- `ensureNodeTxn` for a node without ID: same content ⇒ untouched. -/
-def nodeSet (s : State) (i : Nat) (n addr : String) : State :=
+Node rows are keyed by NAME (lower-cased in memdb; the harness uses lower-case names); the node
+ID is a second, unique index.  `ensureNodeCASTxn` compares the ModifyIndex of the row stored
+under the NAME of the request, whatever ID the request carries. -/
+
+/-- `getNodeIDTxn`: the row carrying this node ID (the `uuid` index), with the name it is stored under -/
+def nodeById (t : Tab String NodeVal) (id : String) : Option (String × Ver NodeVal) :=
+  t.find? (fun p => p.2.val.id = id)
+
+/-- the Serf health check of a node exists and is not critical (the harness registers every
+    check as passing) — only then does a node defend its name -/
+def nodeHealthy (chks : Tab (String × String) ChkVal) (n : String) : Bool :=
+  (tget chks (n, "serfHealth")).isSome
+
+/-- `ensureNoNodeWithSimilarNameTxn(tx, node, allowClashWithoutID)`: `true` = "Node name … is
+    reserved by node …".  Names are unique keys, so the only candidate is the row under `n`. -/
+def nameConflict (nodes : Tab String NodeVal) (chks : Tab (String × String) ChkVal)
+    (n id : String) (allowClashWithoutID : Bool) : Bool :=
+  match tget nodes n with
+  | some e => decide (e.val.id ≠ id) && (decide (e.val.id ≠ "") || !allowClashWithoutID) && nodeHealthy chks n
+  | none => false
+
+/-- the by-name tail of `ensureNodeTxn`: same content (ID and address) ⇒ untouched -/
+def nodeSetByName (s : State) (i : Nat) (n : String) (v : NodeVal) : State :=
   match tget s.nodes n with
-  | some e => if e.val = addr then s else { s with nodes := tput s.nodes n ⟨addr, e.create, i⟩ }
-  | none => { s with nodes := tput s.nodes n ⟨addr, i, i⟩ }
+  | some e => if e.val = v then s else { s with nodes := tput s.nodes n ⟨v, e.create, i⟩ }
+  | none => { s with nodes := tput s.nodes n ⟨v, i, i⟩ }
 
 /-- `deleteNodeTxn`: cascades to the node's services and checks. -/
 def nodeDelete (s : State) (n : String) : State :=
@@ -236,6 +263,27 @@ def nodeDelete (s : State) (n : String) : State :=
     { s with nodes := tdel s.nodes n
              svcs := s.svcs.filter (fun p => p.1.1 ≠ n)
              chks := s.chks.filter (fun p => p.1.1 ≠ n) }
+
+/-- `ensureNodeTxn`.  With a node ID: a registration already carrying that ID is the one being
+    updated — if it is stored under another name this is a rename (name-clash check, then the old
+    registration is deleted with its services and checks, the new row inherits its CreateIndex and
+    replaces whatever was stored under the new name); an unknown ID may take over the name of a
+    registration unless that one has an ID of its own and is healthy.  Without ID: by name only. -/
+def nodeSet (s : State) (i : Nat) (n : String) (v : NodeVal) : Except Err State :=
+  if v.id ≠ "" then
+    match nodeById s.nodes v.id with
+    | some (oldName, e) =>
+      if oldName ≠ n then
+        if nameConflict s.nodes s.chks n v.id false then .error .nodeNameConflict
+        else
+          let s' := nodeDelete s oldName
+          .ok { s' with nodes := tput s'.nodes n ⟨v, e.create, i⟩ }
+      else if e.val = v then .ok s
+      else .ok { s with nodes := tput s.nodes n ⟨v, e.create, i⟩ }
+    | none =>
+      if nameConflict s.nodes s.chks n v.id true then .error .nodeNameConflict
+      else .ok (nodeSetByName s i n v)
+  else .ok (nodeSetByName s i n v)
 
 /-- `ensureServiceTxn`: the node must exist (`ErrMissingNode`); same content ⇒ untouched. -/
 def svcSet (s : State) (i : Nat) (n id : String) (port : Nat) : Except Err State :=
@@ -266,9 +314,10 @@ def chkSet (s : State) (i : Nat) (n id : String) (v : ChkVal) : Except Err State
 
 def chkDelete (s : State) (n id : String) : State := { s with chks := tdel s.chks (n, id) }
 
-/-- `ensureNodeCASTxn` as used by `txnNode` (false ⇒ "index is stale"). -/
-def nodeCas (s : State) (i : Nat) (n addr : String) (cidx : Nat) : Except Err State :=
-  if setCasFails (tget s.nodes n) cidx then .error .stale else .ok (nodeSet s i n addr)
+/-- `ensureNodeCASTxn` as used by `txnNode` (false ⇒ "index is stale"): the comparison is made
+    against the row stored under the request's NAME — never against the row of its node ID. -/
+def nodeCas (s : State) (i : Nat) (n : String) (v : NodeVal) (cidx : Nat) : Except Err State :=
+  if setCasFails (tget s.nodes n) cidx then .error .stale else nodeSet s i n v
 
 /-- `deleteNodeCASTxn`: absent ⇒ false. -/
 def nodeDeleteCas (s : State) (n : String) (cidx : Nat) : Except Err State :=
@@ -298,8 +347,8 @@ def chkDeleteCas (s : State) (n id : String) (cidx : Nat) : Except Err State :=
 inductive TOp
   | kvSet (k : String) (v : KVal) | kvDelete (k : String)
   | kvCas (k : String) (v : KVal) (cidx : Nat) | kvDeleteCas (k : String) (cidx : Nat)
-  | nodeSet (n addr : String) | nodeDelete (n : String)
-  | nodeCas (n addr : String) (cidx : Nat) | nodeDeleteCas (n : String) (cidx : Nat)
+  | nodeSet (n : String) (v : NodeVal) | nodeDelete (n : String)
+  | nodeCas (n : String) (v : NodeVal) (cidx : Nat) | nodeDeleteCas (n : String) (cidx : Nat)
   | svcSet (n id : String) (port : Nat) | svcDelete (n id : String)
   | svcCas (n id : String) (port cidx : Nat) | svcDeleteCas (n id : String) (cidx : Nat)
   | chkSet (n id : String) (v : ChkVal) | chkDelete (n id : String)
@@ -308,8 +357,12 @@ deriving DecidableEq, Repr
 
 def kvRes (s : State) (k : String) : List TRes :=
   match tget s.kvs k with | some e => [.kv k e.val.flags e.create e.modify] | none => []
-def nodeRes (s : State) (n : String) : List TRes :=
-  match tget s.nodes n with | some e => [.node n e.create e.modify] | none => []
+/-- `txnNode`'s `getNode()`: by node ID when the operation carries one, else by name -/
+def nodeRes (s : State) (n id : String) : List TRes :=
+  if id ≠ "" then
+    match nodeById s.nodes id with | some (nm, e) => [.node nm e.create e.modify] | none => []
+  else
+    match tget s.nodes n with | some e => [.node n e.create e.modify] | none => []
 def svcRes (s : State) (n id : String) : List TRes :=
   match tget s.svcs (n, id) with | some e => [.svc n id e.create e.modify] | none => []
 def chkRes (s : State) (n id : String) : List TRes :=
@@ -329,9 +382,9 @@ def tapply (w : State) (i : Nat) : TOp → Except Err (State × List TRes)
   | .kvDelete k => .ok (kvDelete w i k, [])
   | .kvCas k v c => (ofCas (kvCas w i k v c)).map fun w' => (w', kvRes w' k)
   | .kvDeleteCas k c => (ofCas (kvDeleteCas w i k c)).map fun w' => (w', [])
-  | .nodeSet n a => let w' := nodeSet w i n a; .ok (w', nodeRes w' n)
+  | .nodeSet n v => (nodeSet w i n v).map fun w' => (w', nodeRes w' n v.id)
   | .nodeDelete n => .ok (nodeDelete w n, [])
-  | .nodeCas n a c => (nodeCas w i n a c).map fun w' => (w', nodeRes w' n)
+  | .nodeCas n v c => (nodeCas w i n v c).map fun w' => (w', nodeRes w' n v.id)
   | .nodeDeleteCas n c => (nodeDeleteCas w n c).map fun w' => (w', [])
   | .svcSet n id p => (svcSet w i n id p).map fun w' => (w', svcRes w' n id)
   | .svcDelete n id => .ok (svcDelete w n id, [])
